@@ -118,6 +118,8 @@ PROPS = {
     "C04": {
         "asserts": ["C04.", "uncaught-panic"],
         "harnesses": BATCH_HARNESSES + HOLDING_HARNESSES + [PEGBATCH] + [
+            {"id": "fct-burns", "func": "VerifBurns", "pkg": NODE, "pkgname": "node", "load": ["./node"],
+             "params": {"quick": {}, "thorough": {}}, "must_cover": ["burn", "no-burn"], "max_witness_replays": 3},
             # the one-time supply events inside the real sync loop (burn-address zeroings, mint, burn of the mint)
             {"id": "syncloop-scheduled", "func": "VerifSyncLoop", "pkg": NODE, "pkgname": "node", "load": ["./node"],
              "params": {"quick": {"mode": 0}, "thorough": {"mode": 0}},
